@@ -1,5 +1,7 @@
 import Driver.Codec
 import TakVerif.Impl.Alloc
+import TakVerif.Impl.Book
+import TakVerif.Impl.Bot
 namespace Driver
 open Tak
 
@@ -11,7 +13,9 @@ structure St where
   hs : Tak.HState := {}
   ps : Tak.PState := #[]
   slots : Array (Option Nat) := Array.replicate 16 none
-deriving Inhabited
+  -- C04 (opening book) session: the book built by the last `book`/`realbook` op
+  symBook : Option Tak.Book := none
+  bot : Option Tak.Bot.Session := none      -- C07: the bot game of the current `case`
 
 /-- a handler returns `none` when the op is not its own -/
 abbrev Handler := St → String → List String → Option (St × String)
